@@ -25,16 +25,22 @@ use serde_json::{Value, json};
 use std::collections::{BTreeMap, BTreeSet};
 use std::time::Duration;
 
+/// sub-checks `remote` / `remote-order`: the relay path (submit_remote_tx, verify queue, orphan pool)
+#[path = "c11_remote.rs"]
+mod remote;
+
 pub fn spec() -> CheckSpec {
     CheckSpec {
         id: "C11",
         level: "exploration",
-        rule: "proptest, stateful: a real node with a tiny pool (max_tx_pool_size 2-60 kB, max_ancestors_count 3-8, RBF on/off, expiry 1-3 h under a fake clock, three proposal windows, with and without block assembler) is driven by a generated history (~40 ops quick / ~70 thorough) of submit_local_tx (chains, diamonds, fan-out, shared cell deps on chain and pool cells, consumers of dep'ed cells, header deps, double spends), directed RBF replacements (fee at threshold -1/0/+1, subset / superset / two victims / descendant inputs / deps on victims), remove_local_tx, clock jumps past expiry, model-built blocks proposing / committing subsets of pooled and never-submitted conflicting transactions, reorgs of depth 1-3, plug_entry (arbitrary cycles), clear_pool and verify-queue drains. After EVERY op the pool dump is checked: no shared input; edges.inputs/deps/header_deps = exactly those of the entries; links <=> spends / deps between pooled txs (and inverse); the eight aggregates = sums over the link closure incl. self; index keys = keys recomputed from the entry; index orders sorted; counters = sums; get_all_entry_info / get_tx_pool_info agree; ancestor limit; RBF admitted => fee >= sum(replaced fees) + min_rbf_rate*size/1000, never both present, a same-input replacement paying the threshold is admitted. Non-trivial = the history contains a removal with descendants (eviction, conflict, RBF, removal, detached header/proposal) while an ancestor of the removed subtree stays pooled; distinct by hash of the case.",
+        rule: "proptest, stateful: a real node with a tiny pool (max_tx_pool_size 2-60 kB, max_ancestors_count 3-8, RBF on/off, expiry 1-3 h under a fake clock, three proposal windows, with and without block assembler) is driven by a generated history (~40 ops quick / ~70 thorough) of submit_local_tx (chains, diamonds, fan-out, shared cell deps on chain and pool cells, consumers of dep'ed cells, header deps, double spends), directed RBF replacements (fee at threshold -1/0/+1, subset / superset / two victims / descendant inputs / deps on victims), remove_local_tx, clock jumps past expiry, model-built blocks proposing / committing subsets of pooled and never-submitted conflicting transactions, reorgs of depth 1-3, plug_entry (arbitrary cycles), clear_pool and verify-queue drains. After EVERY op the pool dump is checked: no shared input; edges.inputs/deps/header_deps = exactly those of the entries; links <=> spends / deps between pooled txs (and inverse); the eight aggregates = sums over the link closure incl. self; index keys = keys recomputed from the entry; index orders sorted; counters = sums; get_all_entry_info / get_tx_pool_info agree; ancestor limit; RBF admitted => fee >= sum(replaced fees) + min_rbf_rate*size/1000, never both present, a same-input replacement paying the threshold is admitted. Non-trivial = the history contains a removal with descendants (eviction, conflict, RBF, removal, detached header/proposal) while an ancestor of the removed subtree stays pooled; distinct by hash of the case. Sub-checks `remote` / `remote-order` (relay path): a plan (DAG of 4-14 transactions over the faucet cells: chains, diamonds, joins of several parents, double spends, cell deps on plan outputs, fees below the minimum) is delivered in a generated order through submit_remote_tx (4 peers, right / wrong declared cycles, held in the verify queue or verified at once, duplicates) and submit_local_tx, mixed with model-built blocks proposing / committing plan transactions the pool never saw, reorgs, remove_local_tx on queued / orphan / pooled transactions, clock jumps past the orphan expiry and floods of 20-106 parentless transactions; after EVERY op the node is quiescent (verify queue empty and no worker / recover-back task / reorg task in flight, from the dump hook, twice in a row) and the dump is judged by (1) all C11 clauses above, (2) the orphan model: no transaction both pooled and orphan or both queued and orphan, by_out_point = exactly the inputs of the orphans, at most 100 orphans, every orphan was submitted remotely with the recorded peer and cycles, no admissible orphan stays parked once every input and dep is live on chain or an output of a pooled transaction, an insertion drops expired orphans, an orphan that left was promoted, removed, committed, expired, evicted at the limit or refused on a retry for which every parent had been available (never while a parent was missing, never although it is admissible), refusals are recorded in recent_reject, (3) verdict equivalence: a transaction tried alone ends in the pool / the orphan pool / nowhere as an independent judgement of the dump before the op says (parents known, nothing spent, fee, declared cycles, ancestor limit); `remote-order`: the final pool (ids, links, eight aggregates, totals) of a conflict-free policy-neutral plan delivered remotely in a generated order equals the pool of a second node fed locally in topological order. Non-trivial (remote) = a promotion of an orphan that had >= 2 missing parents which arrived at different steps, or of an orphan chain of depth >= 2 by one parent.",
         assumptions: &[
             "cycles vary only through the number of script groups (always_success lock variants) and through plug_entry; sizes through data length and input/output counts",
             "the verify queue workers are suspended except inside the explicit drain op, so histories replay deterministically; the concurrent interleaving of queue workers with reorgs is not explored",
             "links created because a transaction consumes a cell that another pooled transaction uses as cell dep are accepted as 'dependency' links but not demanded",
             "plug_entry is a test-only entrance (feature internal); entries plugged through it never double-spend a pooled input except in the dedicated sub-property",
+            "remote sub-checks: one verify worker (FIFO, fake clock advanced 1 ms per submission) so histories replay deterministically; held transactions are verified in a step of their own before a block is delivered: a verify worker racing with the pool's reorg task or with a second worker (park-after-parent-accepted) is not explored; peer bans are not observable on the dummy network; this ckb version has no removal of a disconnected peer's orphans",
+            "remote sub-checks: cell deps of plan transactions point at plan outputs that no plan transaction spends (the listed cell-ref eviction finding is excluded by construction); after a listed C11 finding was tolerated the history ends (the ancestor-limit judgement would rest on the pool's own stale counters)",
         ],
         workers: |_| 8,
         watchdog_s: |t| t.pick(1500, 7200),
@@ -1009,6 +1015,12 @@ impl<'a> World<'a> {
 
     /// the oracle after an op: `p0` is the dump before it
     fn check_after(&mut self, op: &Op, p0: &Snap, st: &mut Stats) -> Verdict {
+        self.check_after_kind(op.kind(), p0, st)
+    }
+
+    /// the same oracle for an operation named by its kind (`block`, `reorg`, `clock` are chain
+    /// operations; everything else is a pool operation)
+    fn check_after_kind(&mut self, kind: &'static str, p0: &Snap, st: &mut Stats) -> Verdict {
         // dump, the two public queries, dump again: the queries are only compared with a dump when
         // nothing moved in between (verify-queue workers may still be finishing after a drain)
         let mut tries = 0;
@@ -1030,6 +1042,7 @@ impl<'a> World<'a> {
                 && a.total_tx_cycles == b.total_tx_cycles
                 && a.tip_hash == b.tip_hash
                 && a.verify_queue_len == b.verify_queue_len
+                && a.orphans.keys().eq(b.orphans.keys())
                 && a.entries.values().zip(b.entries.values()).all(|(x, y)| x.anc == y.anc && x.desc == y.desc && x.status == y.status);
             if same {
                 break (b, info, all);
@@ -1040,7 +1053,6 @@ impl<'a> World<'a> {
             }
             std::thread::sleep(Duration::from_millis(2));
         };
-        let kind = op.kind();
         if self.panic_check(st)? && matches!(kind, "block" | "reorg" | "clock") {
             // a (listed) panic during a chain notification: the panicking task was the pool's reorg
             // loop (the write guard is released by the unwinding, so the pool looks synced once);
@@ -1290,6 +1302,11 @@ fn run_case(case: &Case, st: &mut Stats, strict: bool, known: &dyn Fn(&str) -> b
 
 fn run(ctx: &Ctx) {
     ctx.shrink_iters.set(150);
+    // development aid: VERIF_C11_ONLY=remote runs the relay-path sub-checks alone
+    if std::env::var("VERIF_C11_ONLY").map(|v| v == "remote").unwrap_or(false) {
+        remote::run(ctx);
+        return;
+    }
     let max_ops = ctx.tier.pick(40, 70);
     let cases = ctx.cases(800, 8000);
     let known = |s: &str| ctx.is_known(s);
@@ -1297,9 +1314,13 @@ fn run(ctx: &Ctx) {
     // dedicated sub-property: plug_entry of a double-spending entry (DESIGN §4 item 4)
     let cases = ctx.cases(100, 1000);
     ctx.run_prop("history-with-conflicting-plug", cases, case_strategy(24), |c, st| run_case(c, st, ctx.strict, &known, true));
+    remote::run(ctx);
 }
 
 fn replay(ctx: &Ctx, sub: &str, v: &Value) -> Verdict {
+    if sub.starts_with("remote") {
+        return remote::replay(ctx, sub, v);
+    }
     let c: Case = from_case(v)?;
     let mut st = ctx.stats.borrow_mut();
     let known = |s: &str| ctx.is_known(s);
